@@ -984,7 +984,18 @@ pub async fn run(ctx: &Ctx) {
     let ok = gathered(&a).await && gathered(&b).await;
     let a_all = a.local_candidates();
     // A's passive ICE-TCP listener (knob via_tcp); B, which has ICE-TCP disabled, is only told A's UDP candidate
-    let a_tcp: Option<SocketAddr> = a_all.iter().find(|c| c.transport == "tcp" && c.address.port() != 9).map(|c| c.address);
+    // (A may hold several: the listener that host gathering binds on an ephemeral port and the one from the configured port
+    // range; via_tcp = 2 aims at the shared port itself, via_tcp = 1 at either, by plan seed)
+    let a_tcp: Option<SocketAddr> = {
+        let base = 52_000 + (p.seed % 500) as u16 * 8;
+        let all: Vec<SocketAddr> = a_all.iter().filter(|c| c.transport == "tcp" && c.address.port() != 9).map(|c| c.address).collect();
+        ctx.stat(&format!("probe.a_tcp_candidates.{}", all.len()), 1);
+        match via_tcp {
+            2 => all.iter().find(|x| x.port() == base).copied(),
+            _ if all.is_empty() => None,
+            _ => Some(all[(p.seed / 7) as usize % all.len()]),
+        }
+    };
     let a_loc: Vec<IceCandidate> = a_all.iter().filter(|c| c.transport != "tcp" && c.typ != rustrtc::transports::ice::IceCandidateType::Relay).cloned().collect();
     if via_turn && (turn_client.lock().unwrap().is_none() || !a_all.iter().any(|c| c.typ == rustrtc::transports::ice::IceCandidateType::Relay)) {
         ctx.violate("HARNESS.c06-turn", format!("via_turn but A holds no relay candidate: {:?}", a_all.iter().map(|c| format!("{:?}/{}", c.typ, c.address)).collect::<Vec<_>>()));
@@ -1238,23 +1249,34 @@ pub async fn run(ctx: &Ctx) {
                     drop(l);
                     ctx.stat("probe.unauth_req_over_turn", 1);
                 } else if over_tcp {
-                    let reuse = i % 2 == 1 && !m_conns.is_empty();
-                    if !reuse {
-                        if let Ok(raw) = ctx.net.tcp_connect_from(Some(from.ip()), a_tcp.unwrap()) {
-                            let okc = tokio::time::timeout(Duration::from_secs(2), std::future::poll_fn(|cx| vh::SimTcpStream::poll_connected(&*raw, cx))).await;
-                            if matches!(okc, Ok(Ok(()))) {
-                                m_conns.push(vh::TcpStream::from_sim(raw));
+                    use tokio::io::AsyncWriteExt;
+                    let mut f = (bytes.len() as u16).to_be_bytes().to_vec();
+                    f.extend_from_slice(&bytes);
+                    let mut reuse = i % 2 == 1 && !m_conns.is_empty();
+                    // (the victim may have closed a connection it had no use for - the shared port does that to a first frame
+                    // it cannot route: a write into it fails, and the attacker simply connects again)
+                    for _attempt in 0..2 {
+                        if !reuse {
+                            if let Ok(raw) = ctx.net.tcp_connect_from(Some(from.ip()), a_tcp.unwrap()) {
+                                let okc = tokio::time::timeout(Duration::from_secs(2), std::future::poll_fn(|cx| vh::SimTcpStream::poll_connected(&*raw, cx))).await;
+                                if matches!(okc, Ok(Ok(()))) {
+                                    m_conns.push(vh::TcpStream::from_sim(raw));
+                                } else {
+                                    break;
+                                }
                             }
                         }
-                    }
-                    if let Some(sck) = m_conns.last_mut() {
-                        use tokio::io::AsyncWriteExt;
-                        let mut f = (bytes.len() as u16).to_be_bytes().to_vec();
-                        f.extend_from_slice(&bytes);
-                        tcp_ok = sck.write_all(&f).await.is_ok();
-                        if let Ok(l) = sck.local_addr() {
-                            ctx.ev("attack travels over TCP", &format!("{l} -> {} reuse={}", a_tcp.unwrap(), reuse as u8));
+                        if let Some(sck) = m_conns.last_mut() {
+                            tcp_ok = sck.write_all(&f).await.is_ok();
+                            if let Ok(l) = sck.local_addr() {
+                                ctx.ev("attack travels over TCP", &format!("{l} -> {} reuse={} ok={}", a_tcp.unwrap(), reuse as u8, tcp_ok as u8));
+                            }
                         }
+                        if tcp_ok {
+                            break;
+                        }
+                        m_conns.pop();
+                        reuse = false;
                     }
                     ctx.stat(if tcp_ok { "probe.unauth_req_over_tcp" } else { "probe.tcp_delivery_failed" }, 1);
                 } else {
@@ -1268,7 +1290,9 @@ pub async fn run(ctx: &Ctx) {
                     let delivered = if over_tcp { tcp_ok } else { l.injected_delivered > inj0 };
                     (l.deliveries_since(t0 - 500.0).saturating_sub((delivered && !over_tcp && !over_turn) as usize), delivered)
                 };
-                if !delivered {
+                if !delivered && over_tcp {
+                    ctx.stat("probe.tcp_delivery_refused", 1);
+                } else if !delivered {
                     ctx.violate("HARNESS.c06-inject", format!("attacker packet not delivered within {} ms", lat_ms(1) + settle_ms));
                 }
                 let in_target = match target {
